@@ -149,6 +149,13 @@ def specials():
     cheat_sp("vm-assertTrue-signed", _e2e.call_cheat("assertGe(int256,int256)", [cd0, [("PUSH", 0)]]) + ["POP"] + cd0 + [("PUSH", 255), "SHR"] + R32,
              "vm.assert-continuation")
     cheat_sp("vm-assume-then-return", _e2e.call_cheat("assume(bool)", [cd1 + cd0 + ["LT"]]) + ["POP"] + cd1 + cd0 + ["SUB"] + R32, "vm.assume")
+    # dynamic-array overflow pattern: keccak(x) > offset + keccak(x) is pruned only for small concrete offsets (A2)
+    hx = cd0 + [("PUSH", 0), "MSTORE", ("PUSH", 32), ("PUSH", 0), "SHA3"]
+    for nm, off in (("sym", cd1), ("small", [("PUSH", 3)]), ("huge", [("PUSH", (1 << 256) - 5)]), ("2^64", [("PUSH", 1 << 64)])):
+        sp(f"keccak-plus-offset-overflow-{nm}", hx + off + ["ADD"] + hx + ["GT", ("PUSHL", "w"), "JUMPI", ("PUSH", 7)] + R32 + [
+            ("LABEL", "w"), ("PUSH", 9)] + R32, f"keccak-offset-overflow-{nm}")
+        sp(f"keccak-plus-offset-overflow-lt-{nm}", hx + hx + off + ["ADD", "LT", ("PUSHL", "w"), "JUMPI", ("PUSH", 7)] + R32 + [
+            ("LABEL", "w"), ("PUSH", 9)] + R32, f"keccak-offset-overflow-{nm}")
     sp("stack-underflow", ["ADD"], "stack-underflow")
     sp("invalid-op", [0x0C], "undefined-opcode")
     sp("selfbalance-caller", ["CALLER", "BALANCE", "SELFBALANCE", "ADD"] + R32, "balance-read")
